@@ -365,3 +365,90 @@ def metropolis_hastings_probabilities(target_index: int, allele_index: int, samp
         lemma_fsum_upd(PB, probabilities, 0, U, current_allele)
     with exit_():
         lemma_dcoh2_to_3(llk_cache, C0, sample_read_dists, sample_read_counts, haplotypes, sample_ploidy, NS, NN, NR, U, target_index, reads, read_counts, MASK, len(read_counts))
+
+
+# ---- the single-individual sweep of the pedigree sampler: every update keeps every genotype valid and the shared
+# ---- cache owner-coherent (C09: after any sequence of moves)
+
+
+@spec_inline
+def PEDOK(SG: A[int, 2], PL: A[int, 1], RD: A[xfloat, 4], RC: A[int, 2], H: A[int, 2], NS: int, W: int, U: int, N: int, NA: int, NR: int) -> bool:
+    """all individuals: ploidy within the genotype matrix, valid genotypes, well-formed reads"""
+    return forall(0, NS, lambda s: PL[s] <= W and SAMPLEOK(SG, RD, RC, H, s, PL[s], U, N, NA, NR)) and forall(0, U, lambda h: forall(0, N, lambda j: 0 <= H[h, j] and H[h, j] < NA))
+
+
+@spec_inline
+def PEDPOS(PL: A[int, 1], parents: A[int, 2], children: A[int, 2], tau: A[int, 2], lam: A[float, 2], err: A[float, 2], lf: A[xfloat, 1], RD: A[float, 4], RC: A[int, 2], H: A[int, 2], NS: int, U: int, N: int, NR: int) -> bool:
+    """domain of the proof: every single-allele option of every joint state has a finite likelihood and finite
+    Markov-blanket probabilities (error-rate encoded reads, positive gamete error and allele frequencies)"""
+    return forall_arr2(lambda G: forall(0, NS, lambda t: forall(0, PL[t], lambda k: forall(0, U, lambda a: not isninf(LLKAZU(RD[t], RC[t], H, G, t, k, a, PL[t], N, NR)) and not isninf(MBLAPU(t, k, a, G, PL, parents, children, tau, lam, err, lf)) and not isninf(MBLPU(t, k, a, G, PL, parents, children, tau, lam, err, lf))))))
+
+
+@contract("mchap.pedigree.mcmc.allele_step", machine_ints=True, props=["C18", "C09"], variants=[{"llk_cache": "some"}])
+def allele_step(target_index: int, allele_index: int, sample_genotypes: A[iN, 2], sample_ploidy: A[iN, 1], sample_parents: A[iN, 2], sample_children: A[iN, 2], gamete_tau: A[iN, 2], gamete_lambda: A[f8, 2], gamete_error: A[f8, 2], sample_read_dists: A[f8, 4], sample_read_counts: A[i8, 2], haplotypes: A[i1, 2], log_frequencies: A[f8, 1], llk_cache: Opt[FDict2], step_type: int, dosage: A[iN, 1], dosage_p: A[iN, 1], dosage_q: A[iN, 1], gamete_p: A[iN, 1], gamete_q: A[iN, 1], constraint_p: A[iN, 1], constraint_q: A[iN, 1], dosage_log_frequencies: A[f8, 1]):
+    requires(step_type == 0 or step_type == 1, NS >= 1, 0 <= target_index, target_index < NS, 0 <= allele_index, allele_index < sample_ploidy[target_index], 2 <= U, U <= 127)
+    requires(sample_genotypes.shape[0] == NS, sample_genotypes.shape[1] <= 2 ** 20, sample_read_dists.shape[0] == NS, sample_read_counts.shape[0] == NS, sample_read_counts.shape[1] == NR, sample_read_dists.shape[2] == NN)
+    requires(PEDOK(sample_genotypes, sample_ploidy, sample_read_dists, sample_read_counts, haplotypes, NS, sample_genotypes.shape[1], U, NN, sample_read_dists.shape[3], NR))
+    requires(PEDPOS(sample_ploidy, sample_parents, sample_children, gamete_tau, gamete_lambda, gamete_error, log_frequencies, sample_read_dists, sample_read_counts, haplotypes, NS, U, NN, NR))
+    requires(implies(llk_cache is not None, DCOH3(llk_cache, sample_read_dists, sample_read_counts, haplotypes, sample_ploidy, NS, NN, NR, U)))
+    modifies(sample_genotypes, llk_cache, dosage, dosage_p, dosage_q, gamete_p, gamete_q, constraint_p, constraint_q, dosage_log_frequencies)
+    # only the chosen copy of the chosen individual changes, and it stays a valid allele
+    ensures(forall(0, NS, lambda x: forall(0, sample_genotypes.shape[1], lambda y: implies(x != target_index or y != allele_index, sample_genotypes[x, y] == old(sample_genotypes)[x, y]))))
+    ensures(0 <= sample_genotypes[target_index, allele_index], sample_genotypes[target_index, allele_index] < U)
+    ensures(implies(llk_cache is not None, DCOH3(llk_cache, sample_read_dists, sample_read_counts, haplotypes, sample_ploidy, NS, NN, NR, U)))
+    with defs():
+        NS = len(sample_ploidy)
+        NR = sample_read_dists.shape[1]
+        NN = haplotypes.shape[1]
+        U = len(haplotypes)
+    with entry():
+        instantiate(PEDPOS(sample_ploidy, sample_parents, sample_children, gamete_tau, gamete_lambda, gamete_error, log_frequencies, sample_read_dists, sample_read_counts, haplotypes, NS, U, NN, NR), sample_genotypes)
+
+
+@contract("mchap.pedigree.mcmc.sample_step", machine_ints=True, props=["C18", "C09"], variants=[{"llk_cache": "some"}])
+def sample_step(target_index: int, sample_genotypes: A[iN, 2], sample_ploidy: A[iN, 1], sample_parents: A[iN, 2], sample_children: A[iN, 2], gamete_tau: A[iN, 2], gamete_lambda: A[f8, 2], gamete_error: A[f8, 2], sample_read_dists: A[f8, 4], sample_read_counts: A[i8, 2], haplotypes: A[i1, 2], log_frequencies: A[f8, 1], llk_cache: Opt[FDict2], step_type: int, dosage: A[iN, 1], dosage_p: A[iN, 1], dosage_q: A[iN, 1], gamete_p: A[iN, 1], gamete_q: A[iN, 1], constraint_p: A[iN, 1], constraint_q: A[iN, 1], dosage_log_frequencies: A[f8, 1]):
+    requires(step_type == 0 or step_type == 1, NS >= 1, 0 <= target_index, target_index < NS, 2 <= U, U <= 127)
+    requires(sample_genotypes.shape[0] == NS, sample_genotypes.shape[1] <= 2 ** 20, sample_read_dists.shape[0] == NS, sample_read_counts.shape[0] == NS, sample_read_counts.shape[1] == NR, sample_read_dists.shape[2] == NN)
+    requires(PEDOK(sample_genotypes, sample_ploidy, sample_read_dists, sample_read_counts, haplotypes, NS, sample_genotypes.shape[1], U, NN, sample_read_dists.shape[3], NR))
+    requires(PEDPOS(sample_ploidy, sample_parents, sample_children, gamete_tau, gamete_lambda, gamete_error, log_frequencies, sample_read_dists, sample_read_counts, haplotypes, NS, U, NN, NR))
+    requires(implies(llk_cache is not None, DCOH3(llk_cache, sample_read_dists, sample_read_counts, haplotypes, sample_ploidy, NS, NN, NR, U)))
+    modifies(sample_genotypes, llk_cache, dosage, dosage_p, dosage_q, gamete_p, gamete_q, constraint_p, constraint_q, dosage_log_frequencies)
+    # only the genotype of the target individual changes; all genotypes stay valid; the cache stays owner-coherent
+    ensures(forall(0, NS, lambda x: forall(0, sample_genotypes.shape[1], lambda y: implies(x != target_index, sample_genotypes[x, y] == old(sample_genotypes)[x, y]))))
+    ensures(PEDOK(sample_genotypes, sample_ploidy, sample_read_dists, sample_read_counts, haplotypes, NS, sample_genotypes.shape[1], U, NN, sample_read_dists.shape[3], NR))
+    ensures(implies(llk_cache is not None, DCOH3(llk_cache, sample_read_dists, sample_read_counts, haplotypes, sample_ploidy, NS, NN, NR, U)))
+    with defs():
+        NS = len(sample_ploidy)
+        NR = sample_read_dists.shape[1]
+        NN = haplotypes.shape[1]
+        U = len(haplotypes)
+    with loop(0):
+        invariant(0 <= i, i <= len(allele_indices), len(allele_indices) == sample_ploidy[target_index])
+        invariant(forall(0, len(allele_indices), lambda t: 0 <= allele_indices[t] and allele_indices[t] < sample_ploidy[target_index]))
+        invariant(forall(0, NS, lambda x: forall(0, sample_genotypes.shape[1], lambda y: implies(x != target_index, sample_genotypes[x, y] == old(sample_genotypes)[x, y]))))
+        invariant(PEDOK(sample_genotypes, sample_ploidy, sample_read_dists, sample_read_counts, haplotypes, NS, sample_genotypes.shape[1], U, NN, sample_read_dists.shape[3], NR))
+        invariant(implies(llk_cache is not None, DCOH3(llk_cache, sample_read_dists, sample_read_counts, haplotypes, sample_ploidy, NS, NN, NR, U)))
+
+
+@contract("mchap.pedigree.mcmc.compound_step", machine_ints=True, props=["C18", "C09"], variants=[{"llk_cache": "some"}])
+def compound_step(sample_genotypes: A[iN, 2], sample_ploidy: A[iN, 1], sample_parents: A[iN, 2], sample_children: A[iN, 2], gamete_tau: A[iN, 2], gamete_lambda: A[f8, 2], gamete_error: A[f8, 2], sample_read_dists: A[f8, 4], sample_read_counts: A[i8, 2], haplotypes: A[i1, 2], log_frequencies: A[f8, 1], llk_cache: Opt[FDict2], step_type: int, dosage: A[iN, 1], dosage_p: A[iN, 1], dosage_q: A[iN, 1], gamete_p: A[iN, 1], gamete_q: A[iN, 1], constraint_p: A[iN, 1], constraint_q: A[iN, 1], dosage_log_frequencies: A[f8, 1]):
+    requires(step_type == 0 or step_type == 1, NS >= 1, 2 <= U, U <= 127)
+    requires(sample_genotypes.shape[0] == NS, sample_genotypes.shape[1] <= 2 ** 20, sample_read_dists.shape[0] == NS, sample_read_counts.shape[0] == NS, sample_read_counts.shape[1] == NR, sample_read_dists.shape[2] == NN)
+    requires(PEDOK(sample_genotypes, sample_ploidy, sample_read_dists, sample_read_counts, haplotypes, NS, sample_genotypes.shape[1], U, NN, sample_read_dists.shape[3], NR))
+    requires(PEDPOS(sample_ploidy, sample_parents, sample_children, gamete_tau, gamete_lambda, gamete_error, log_frequencies, sample_read_dists, sample_read_counts, haplotypes, NS, U, NN, NR))
+    requires(implies(llk_cache is not None, DCOH3(llk_cache, sample_read_dists, sample_read_counts, haplotypes, sample_ploidy, NS, NN, NR, U)))
+    modifies(sample_genotypes, llk_cache, dosage, dosage_p, dosage_q, gamete_p, gamete_q, constraint_p, constraint_q, dosage_log_frequencies)
+    # C09 (call-pedigree): after a full sweep over all individuals and allele copies every genotype is valid and every
+    # cached likelihood is that of its owner's own reads
+    ensures(PEDOK(sample_genotypes, sample_ploidy, sample_read_dists, sample_read_counts, haplotypes, NS, sample_genotypes.shape[1], U, NN, sample_read_dists.shape[3], NR))
+    ensures(implies(llk_cache is not None, DCOH3(llk_cache, sample_read_dists, sample_read_counts, haplotypes, sample_ploidy, NS, NN, NR, U)))
+    with defs():
+        NS = len(sample_ploidy)
+        NR = sample_read_dists.shape[1]
+        NN = haplotypes.shape[1]
+        U = len(haplotypes)
+    with loop(0):
+        invariant(0 <= i, i <= len(target_indices), len(target_indices) == NS)
+        invariant(forall(0, NS, lambda t: 0 <= target_indices[t] and target_indices[t] < NS))
+        invariant(PEDOK(sample_genotypes, sample_ploidy, sample_read_dists, sample_read_counts, haplotypes, NS, sample_genotypes.shape[1], U, NN, sample_read_dists.shape[3], NR))
+        invariant(implies(llk_cache is not None, DCOH3(llk_cache, sample_read_dists, sample_read_counts, haplotypes, sample_ploidy, NS, NN, NR, U)))
